@@ -287,6 +287,14 @@ func (s *ScriptSched) Next(w *World, choices []Choice) (int, time.Duration) {
 	return s.Tail.Next(w, choices)
 }
 
+// Peek returns the key of the next recorded action.
+func (s *ScriptSched) Peek() (string, bool) {
+	if s.pos < len(s.Actions) && s.Diverged == "" {
+		return s.Actions[s.pos].K, true
+	}
+	return "", false
+}
+
 func (s *ScriptSched) Join(w *World, choices []Choice) int {
 	if s.pos < len(s.Actions) && s.Actions[s.pos].J && s.Diverged == "" {
 		a := s.Actions[s.pos]
